@@ -102,6 +102,7 @@ type Exec struct {
 	nReturn int
 	nPre map[string]int
 	nNoPanic int
+	nGuard   int
 	closureVar map[types.Object]*FuncInfo
 	aliasHook  func(*State)
 	fnValueOfCall *Term
@@ -960,6 +961,7 @@ func (x *Exec) assignTo(s *State, lhs ast.Expr, val *Term) {
 			return
 		}
 		x.obligeNoPanic(s, Neq(base, V("null", SRef)), "nil dereference", l)
+		x.checkGuard(s, named, l.Sel.Name, base, true, l)
 		fv := x.u.fieldVar(named, l.Sel.Name)
 		ft := sel.Obj().Type()
 		fs := x.u.sortOf(ft)
@@ -1808,7 +1810,7 @@ func (x *Exec) runLoop(s *State, entry *State, node ast.Node, bodyNode ast.Node,
 	savedFresh := x.copyFresh()
 	savedDefers := len(x.defers)
 	savedCounts := append([]int(nil), x.loopCount...)
-	savedRet, savedNP := x.nReturn, x.nNoPanic
+	savedRet, savedNP, savedNG := x.nReturn, x.nNoPanic, x.nGuard
 	for iter := 0; iter < 6; iter++ {
 		x.suppress = true
 		h := x.loopHead(s, entry, lc, locals, modified, pseudoInit)
@@ -1845,7 +1847,7 @@ func (x *Exec) runLoop(s *State, entry *State, node ast.Node, bodyNode ast.Node,
 		x.restoreFresh(savedFresh)
 		x.defers = x.defers[:savedDefers]
 		x.loopCount = append([]int(nil), savedCounts...)
-		x.nReturn, x.nNoPanic = savedRet, savedNP
+		x.nReturn, x.nNoPanic, x.nGuard = savedRet, savedNP, savedNG
 		if !grew {
 			break
 		}
